@@ -455,17 +455,21 @@ func runC03(c *core.Ctx) {
 	for _, tc := range consumers {
 		key := core.FuncKey(tc.fn)
 		isLenGuard := func(ifi *ssa.If) bool {
-			cmp, ok := core.IfCompare(ifi)
-			if !ok {
-				return false
+			// one side derives from Length, the other side is not a constant (a counter) - the comparison may be the
+			// branch condition itself or what a named condition (closedEarly := bounded && n != expectLen) implies
+			isGuardRel := func(x, y ssa.Value) bool {
+				dx, dy := tc.derivesFromField(x, "Length"), tc.derivesFromField(y, "Length")
+				return (dx && core.ConstVal(y) == nil) || (dy && core.ConstVal(x) == nil)
 			}
-			// one side derives from Length, the other side is not a constant (a counter)
-			dx, dy := tc.derivesFromField(cmp.X, "Length"), tc.derivesFromField(cmp.Y, "Length")
-			if dx && core.ConstVal(cmp.Y) == nil {
+			if cmp, ok := core.IfCompare(ifi); ok && isGuardRel(cmp.X, cmp.Y) {
 				return true
 			}
-			if dy && core.ConstVal(cmp.X) == nil {
-				return true
+			for succ := 0; succ < 2; succ++ {
+				for _, a := range core.ImpliedAtoms(core.Edge{From: ifi.Block(), Succ: succ}) {
+					if a.Rel != nil && isGuardRel(a.Rel.X, a.Rel.Y) {
+						return true
+					}
+				}
 			}
 			return false
 		}
@@ -703,7 +707,28 @@ func checkTrailing(c *core.Ctx, rel, recv, name string) {
 	umNil := core.EdgesWhere(fn, func(r core.Rel) bool {
 		return r.Op == token.EQL && core.Strip(r.X) == ssa.Value(um) && core.IsNilConst(r.Y)
 	})
-	isReadErr := func(v ssa.Value) bool {
+	var isReadErr func(v ssa.Value) bool
+	seenPhi := map[*ssa.Phi]bool{}
+	isReadErr = func(v ssa.Value) bool {
+		// a variable that holds the error of the last read (readErr := nil; for readErr == nil { _, readErr = r.Read(..) })
+		if phi, ok := core.Strip(v).(*ssa.Phi); ok {
+			if seenPhi[phi] {
+				return true
+			}
+			seenPhi[phi] = true
+			defer delete(seenPhi, phi)
+			some := false
+			for _, ev := range phi.Edges {
+				if core.IsNilConst(ev) {
+					continue
+				}
+				if !isReadErr(ev) {
+					return false
+				}
+				some = true
+			}
+			return some
+		}
 		e, ok := core.Strip(v).(*ssa.Extract)
 		if !ok || e.Index != 1 {
 			return false
